@@ -44,7 +44,8 @@ LIMIT_TABLE = [
     ('_yr_emit_split', 'libyara/re.c', 'RE_MAX_SPLIT_ID', 'ERROR_REGULAR_EXPRESSION_TOO_COMPLEX'),
     ('_yr_re_fiber_create', 'libyara/re.c', 'RE_MAX_FIBERS', 'ERROR_TOO_MANY_RE_FIBERS'),
     ('_yr_scan_add_match_to_list', 'libyara/scan.c', 'YR_MAX_STRING_MATCHES', 'ERROR_TOO_MANY_MATCHES'),
-    ('yr_parser_reduce_rule_declaration_phase_2', 'libyara/parser.c', 'max_strings_per_rule', 'ERROR_TOO_MANY_STRINGS'),
+    ('yr_parser_reduce_rule_declaration_phase_2', 'libyara/parser.c', ('config', 'YR_CONFIG_MAX_STRINGS_PER_RULE'),
+     'ERROR_TOO_MANY_STRINGS'),
     ('yr_arena_load_stream', 'libyara/arena.c', 'YR_MAX_ARENA_BUFFERS', 'ERROR_INVALID_FILE'),
     ('iter_array_next', 'libyara/exec.c', 'capacity', 'ERROR_EXEC_STACK_OVERFLOW'),
     ('iter_dict_next', 'libyara/exec.c', 'capacity', 'ERROR_EXEC_STACK_OVERFLOW'),
@@ -125,18 +126,55 @@ def r15_1(ctx):
         ctx.require(ev is not None, 'error constant %s not evaluable' % err)
         hit = None
         hit_fn = f
+        fam = cu.family(prog, f)
+        # a configurable limit: the variable that receives the configuration value, and the
+        # parameters of family helpers it is handed to
+        tainted = {}
+        if isinstance(text, tuple):
+            kv = prog.macro_value(text[1])
+            ctx.require(kv is not None, 'configuration key %s not evaluable' % text[1])
+            for h in fam:
+                for c in h.calls():
+                    if (c.get('callee') or '').startswith('yr_get_configuration'):
+                        a = h.call_args(c)
+                        if len(a) > 1 and cu.const_of(cu.strip_casts(h, a[0])) == kv:
+                            v = cu.strip_casts(h, a[1])
+                            if v is not None and v['k'] == 'un' and v['op'] == '&':
+                                v = cu.strip_casts(h, h.kid(v, 0))
+                            if v is not None and v['k'] == 'ref':
+                                tainted.setdefault(h.name, set()).add(v['name'])
+            ctx.require(tainted or ctx.fixture, 'no read of configuration %s in %s' % (text[1], fname))
+            byname = {h.name: h for h in fam}
+            for _ in range(3):
+                for h in fam:
+                    for c in h.calls():
+                        g = byname.get(c.get('callee') or '')
+                        if g is None or g is h:
+                            continue
+                        for i, a in enumerate(h.call_args(c)):
+                            a = cu.strip_casts(h, a)
+                            if a is not None and a['k'] == 'ref' and a['name'] in tainted.get(h.name, ()) \
+                                    and i < len(g.params):
+                                tainted.setdefault(g.name, set()).add(g.params[i]['name'])
+            text_s = text[1]
+        else:
+            text_s = text
         # the function itself, or a static helper the test was extracted into (whose
         # error the function propagates: helpers of the family are only reachable from it)
-        for h in cu.family(prog, f):
+        for h in fam:
             for n in h.all_nodes():
                 if n['k'] not in ('if',):
                     continue
                 c = h.kid(n, 0)
                 if c is None:
                     continue
-                txt = h.show_sym(c)
-                if text not in txt:
-                    continue
+                if isinstance(text, tuple):
+                    if not any(x['k'] == 'ref' and x['name'] in tainted.get(h.name, ()) for x in h.walk(c)):
+                        continue
+                else:
+                    txt = h.show_sym(c)
+                    if text not in txt:
+                        continue
                 # the error is raised in the taken arm, or (result-accumulating
                 # style) assigned there and propagated by the code that follows
                 arms = h.kids(n)[1:3]
@@ -145,11 +183,11 @@ def r15_1(ctx):
                     break
             if hit is not None:
                 break
-        ctx.ob('R15.1', '%s:%s->%s' % (fname, text, err), hit is not None,
+        ctx.ob('R15.1', '%s:%s->%s' % (fname, text_s, err), hit is not None,
                hit_fn.loc(hit) if hit is not None else '%s:%s' % (f.file, f.line),
-               'a branch on %s raises %s' % (text, err) if hit is not None else
+               'a branch on %s raises %s' % (text_s, err) if hit is not None else
                'no branch whose condition mentions %s raises %s in %s: exceeding the limit no '
-               'longer yields its documented error' % (text, err, fname))
+               'longer yields its documented error' % (text_s, err, fname))
     # identifier length and integer literal range in the rule lexer
     lx = prog.fn('yara_yylex', 'libyara/lexer.c')
     if lx is not None:
